@@ -76,14 +76,15 @@ LikGradV(p, h, i) == (GradNumV(p, h, i) * MillsMicro(ZOf(p, h))) \div GradDen(p)
 Surs(d) == [s : Sds, a : [1..d -> Slopes], z0 : -1..1, lp0 : LpVals, b : [1..d -> PriorSlopes]]
 
 Init == q = [fn |-> "none"]
-QueryA == \E d \in Dims : \E sur \in Surs(d) : \E x \in [1..d -> Coords] :
+QueryA == q.fn = "none" /\ \E d \in Dims : \E sur \in Surs(d) : \E x \in [1..d -> Coords] :
             \E fn \in {"logpdf", "pdf", "grad"} : \E kind \in {"scalar", "1d", "2d"} :
               /\ KindOK(kind, d, 1)
               /\ ZA(sur, x) \in (ZMin + 1)..(ZMax - 1)
               /\ \A i \in 1..d : Abs(sur.a[i]) <= 1
               /\ q' = [fn |-> fn, fam |-> "A", kind |-> kind, dim |-> d, sur |-> sur, x |-> x, p |-> PointA(sur, x)]
-QueryB == \E s \in Sds : \E z \in (ZMin + 1)..(ZMax - 1) : \E a \in Slopes :
+QueryB == q.fn = "none" /\ \E s \in Sds : \E z \in (ZMin + 1)..(ZMax - 1) : \E a \in Slopes :
             q' = [fn |-> "grad", fam |-> "B", kind |-> "1d", dim |-> 1, z |-> z, a |-> a, p |-> PointB(z, a, s)]
+\* one query per behaviour (every query is reachable from Init in one step)
 Next == QueryA \/ QueryB
 Spec == Init /\ [][Next]_vars
 
@@ -105,7 +106,7 @@ ShapeCount ==
   Live => \A n \in 1..3 : KindOK(q.kind, q.dim, n) =>
             ProdSeq(ExpShape(q.fn, q.kind, q.dim, n)) = ExpCount(q.fn, q.dim, n)
 TablesCoherent ==
-  \A z \in ZMin..ZMax :
+  Live => \A z \in ZMin..ZMax :
     /\ Abs(PhiMicro(z) + PhiMicro(-z) - Unit) <= 1
     /\ LogPhiMicro(z) <= PhiMicro(z) - Unit + 1                      \* log x <= x - 1
     /\ (z < ZMax => LogPhiMicro(z + 1) - LogPhiMicro(z) <= MillsMicro(z) + 2)
